@@ -12,6 +12,15 @@
 #include <fcppt/array/push_back.hpp>
 #include <fcppt/record/element.hpp>
 #include <fcppt/record/get.hpp>
+#include <fcppt/record/has_label.hpp>
+#include <fcppt/algorithm/map.hpp>
+#include <fcppt/algorithm/map_array.hpp>
+#include <fcppt/algorithm/map_tuple.hpp>
+#include <fcppt/algorithm/loop_break_mpl.hpp>
+#include <fcppt/algorithm/loop_break_tuple.hpp>
+#include <fcppt/mpl/list/object.hpp>
+#include <fcppt/tag.hpp>
+#include <fcppt/tuple/invoke.hpp>
 #include <fcppt/record/init.hpp>
 #include <fcppt/record/make_label.hpp>
 #include <fcppt/record/map.hpp>
@@ -60,6 +69,61 @@ tup1 mk_tup1() { return tup1{T3(next_tok())}; }
 tup_tt mk_tup_tt() { return tup_tt{T(next_tok()), T(next_tok())}; }
 rec_ab mk_rec_ab() { return rec_ab{label_a{} = T(next_tok()), label_b{} = T2(next_tok())}; }
 rec_c mk_rec_c() { return rec_c{label_c{} = T3(next_tok())}; }
+
+// which tracked member sits under which label (a lone element is labelled "x")
+template <typename X>
+std::vector<lab> labs_of(X const &x)
+{
+  using U = std::remove_cvref_t<X>;
+  std::vector<lab> r;
+  if constexpr (trk::is_tracked_v<U>) r.push_back(lab{"x", x.raw().id});
+  else if constexpr (is_fcppt_reference<U>::value) return labs_of(x.get());
+  else
+  {
+    if constexpr (fcppt::record::has_label<U, label_a>::value) r.push_back(lab{"a", fcppt::record::get<label_a>(x).raw().id});
+    if constexpr (fcppt::record::has_label<U, label_b>::value) r.push_back(lab{"b", fcppt::record::get<label_b>(x).raw().id});
+    if constexpr (fcppt::record::has_label<U, label_c>::value) r.push_back(lab{"c", fcppt::record::get<label_c>(x).raw().id});
+  }
+  return r;
+}
+// like run1 / run2, additionally emitting the "labels" event before end
+template <char C, typename Make, typename Call>
+void runL1(char const *op, bool keeps, std::string const &shape, Make const &make, Call const &call)
+{
+  if (!wanted(op)) return;
+  if constexpr (!std::is_invocable_v<Call const &, decltype(as_cat<C>(std::declval<decltype(make()) &>()))>)
+    not_instantiable(op, shape, std::string(1, C));
+  else
+  {
+    reset(op, shape, std::string(1, C));
+    auto a = make();
+    auto const la = labs_of(a);
+    begin(op, keeps, {desc(C, a)});
+    decltype(auto) r = call(as_cat<C>(a));
+    labels({la}, labs_of(r));
+    end(r, {ids_of(a)});
+  }
+}
+template <char C1, char C2, typename Make1, typename Make2, typename Call>
+void runL2(char const *op, bool keeps, std::string const &shape, Make1 const &make1, Make2 const &make2, Call const &call)
+{
+  if (!wanted(op)) return;
+  if constexpr (!std::is_invocable_v<Call const &, decltype(as_cat<C1>(std::declval<decltype(make1()) &>())),
+                                     decltype(as_cat<C2>(std::declval<decltype(make2()) &>()))>)
+    not_instantiable(op, shape, std::string{C1, C2});
+  else
+  {
+    reset(op, shape, std::string{C1, C2});
+    auto a = make1();
+    auto b = make2();
+    auto const la = labs_of(a);
+    auto const lb = labs_of(b);
+    begin(op, keeps, {desc(C1, a), desc(C2, b)});
+    decltype(auto) r = call(as_cat<C1>(a), as_cat<C2>(b));
+    labels({la, lb}, labs_of(r));
+    end(r, {ids_of(a), ids_of(b)});
+  }
+}
 
 void arrays()
 {
@@ -142,6 +206,48 @@ void arrays()
   });
 }
 
+void map_sources()
+{
+  for_cats<'r', 'l', 'c'>([&](auto c)
+  {
+    constexpr char C = decltype(c)::value;
+    // map_impl specialisations: tuple -> tuple (tuple::map), array -> array (array::map)
+    run1<C>("algorithm::map", true, "tuple<T,T>->tuple<T,T>", mk_tup_tt, [](auto &&a) C05_CALL(fcppt::algorithm::map<tup_tt>(C05_FWD(a), pass)));
+    run1<C>("algorithm::map", true, "array3->array3", mk_arr3, [](auto &&a) C05_CALL(fcppt::algorithm::map<arr3>(C05_FWD(a), pass)));
+    // generic map_impl over loop_break_impl<tuple> / <array>
+    run1<C>("algorithm::map", true, "tuple<T,T>->vector", mk_tup_tt, [](auto &&a) C05_CALL(fcppt::algorithm::map<vec>(C05_FWD(a), pass)));
+    run1<C>("algorithm::map", true, "array3->vector", mk_arr3, [](auto &&a) C05_CALL(fcppt::algorithm::map<vec>(C05_FWD(a), pass)));
+    run1<C>("tuple::invoke", true, "tuple<T,T>", mk_tup_tt, [](auto &&a)
+    {
+      return fcppt::tuple::invoke([](auto &&x, auto &&y)
+      {
+        cb_scope const g{C05_RECV(x) + "," + C05_RECV(y)};
+        vec r;
+        r.reserve(2U);
+        r.emplace_back(C05_FWD(x));
+        r.emplace_back(C05_FWD(y));
+        return r;
+      },
+      C05_FWD(a));
+    });
+  });
+  // an mpl list as source: the elements are tags, the function makes the values
+  if (wanted("algorithm::map"))
+  {
+    reset("algorithm::map", "mpl::list->vector", "");
+    {
+      begin("algorithm::map", false, {});
+      int k = 0;
+      auto const r = fcppt::algorithm::map<vec>(fcppt::mpl::list::object<int, char, long>{}, [&k]<typename U>(fcppt::tag<U>)
+      {
+        cb_scope const g{""};
+        return T(100 + k++);
+      });
+      end(r, {});
+    }
+  }
+}
+
 void tuples()
 {
   auto const to_var = [](auto &&x)
@@ -192,11 +298,11 @@ void records()
   for_cats<'r', 'l', 'c'>([&](auto c)
   {
     constexpr char C = decltype(c)::value;
-    run1<C>("record::permute", true, "ab->ba", mk_rec_ab, [](auto &&a) C05_CALL(fcppt::record::permute<rec_ba>(C05_FWD(a))));
+    runL1<C>("record::permute", true, "ab->ba", mk_rec_ab, [](auto &&a) C05_CALL(fcppt::record::permute<rec_ba>(C05_FWD(a))));
     // record::map_result is computed from the unstripped Record type: an lvalue record is a
     // hard compile error, only rvalue records can be mapped
     if constexpr (C == 'r')
-    run1<C>("record::map", true, "ab", mk_rec_ab, [](auto &&a)
+    runL1<C>("record::map", true, "ab", mk_rec_ab, [](auto &&a)
     {
       return fcppt::record::map(C05_FWD(a), [](auto &&x)
       {
@@ -204,10 +310,10 @@ void records()
         return std::remove_cvref_t<decltype(x)>(C05_FWD(x));
       });
     });
-    run1<C>("record::object(record)", true, "ab", mk_rec_ab, [](auto &&a) C05_CALL(rec_ab(C05_FWD(a))));
-    run1<C>("record::get", false, "ab", mk_rec_ab, [](auto &&a)
+    runL1<C>("record::object(record)", true, "ab", mk_rec_ab, [](auto &&a) C05_CALL(rec_ab(C05_FWD(a))));
+    runL1<C>("record::get", false, "ab", mk_rec_ab, [](auto &&a)
     { return T(fcppt::move_if_rvalue<decltype(a)>(fcppt::record::get<label_a>(a))); });
-    run1<C>("record::init", true, "from record", mk_rec_ab, [](auto &&a)
+    runL1<C>("record::init", true, "from record", mk_rec_ab, [](auto &&a)
     {
       return fcppt::record::init<rec_ba>([&a]<typename L, typename Ty>(fcppt::record::element<L, Ty>)
       {
@@ -220,14 +326,14 @@ void records()
   {
     for_cats<'r', 'l', 'c'>([&](auto c2)
     {
-      run2<decltype(c1)::value, decltype(c2)::value>("record::multiply_disjoint", true, "ab*c", mk_rec_ab, mk_rec_c,
+      runL2<decltype(c1)::value, decltype(c2)::value>("record::multiply_disjoint", true, "ab*c", mk_rec_ab, mk_rec_c,
           [](auto &&a, auto &&b) C05_CALL(fcppt::record::multiply_disjoint(C05_FWD(a), C05_FWD(b))));
     });
   });
   // set: the record is modified (inout); the new value is passed by const reference or rvalue
   for_cats<'r', 'c'>([&](auto c2)
   {
-    run2<'m', decltype(c2)::value>("record::set", false, "ab", mk_rec_ab, [] { return T(next_tok()); }, [](auto &&a, auto &&b)
+    runL2<'m', decltype(c2)::value>("record::set", false, "ab", mk_rec_ab, [] { return T(next_tok()); }, [](auto &&a, auto &&b)
     {
       fcppt::record::set<label_a>(a, C05_FWD(b));
       return fcppt::make_cref(a);
@@ -238,7 +344,7 @@ void records()
   {
     for_cats<'r', 'c'>([&](auto c2)
     {
-      run2<decltype(c1)::value, decltype(c2)::value>("record::object(labels)", true, "ab", [] { return T(next_tok()); },
+      runL2<decltype(c1)::value, decltype(c2)::value>("record::object(labels)", true, "ab", [] { return T(next_tok()); },
           [] { return T2(next_tok()); },
           [](auto &&a, auto &&b) C05_CALL(rec_ab{label_a{} = C05_FWD(a), label_b{} = C05_FWD(b)}));
     });
@@ -251,6 +357,7 @@ namespace c05
 void drive_product()
 {
   arrays();
+  map_sources();
   tuples();
   records();
 }
